@@ -39,25 +39,30 @@ Definition rt_unmarshal (b : list N) : option N := ures_value (rt_unmarshal_res 
 Definition aa_unmarshal (b : list N) : option N := ures_value (aa_unmarshal_res b).
 
 (* b := make([]byte, 4); binary.LittleEndian.PutUint32(b, x.Flags); return ie.NewX(b[:K]...)
-   Flags is a uint32; b[:K] panics when K > cap(b) = 4 (None). *)
+   PutUint32: b[i] = byte(v >> 8i).  Flags is a uint32 (N.land with 2^32-1); b[:K] panics when K > cap(b) = 4 (None). *)
+Fixpoint put_le (n : nat) (v : N) : list N :=
+  match n with O => [] | S k => N.land v 255 :: put_le k (N.shiftr v 8) end.
 Definition ie_octets (k : nat) (flags : N) : option (list N) :=
-  if Nat.leb k 4 then Some (firstn k (le_bytes 4 (flags mod 4294967296))) else None.
+  if Nat.leb k 4 then Some (firstn k (put_le 4 (N.land flags 4294967295))) else None.
 Definition rt_ie (flags : N) : option (list N) := ie_octets rt_ie_octets flags.
 Definition usar_ie (flags : N) : option (list N) := ie_octets usar_ie_octets flags.
 
 (* func (x *T) NAME() bool { return x.Flags&MASK != 0 }   (MASK from the generated accessor table) *)
+Definition accessor_mask (tbl : list (string * N)) (name : string) : option N :=
+  match find (fun e => String.eqb (fst e) name) tbl with Some e => Some (snd e) | None => None end.
+Definition accessor_m (m : option N) (flags : N) : bool :=
+  match m with Some k => flag_of k flags | None => false end.
 Definition accessor (tbl : list (string * N)) (name : string) (flags : N) : bool :=
-  match find (fun e => String.eqb (fst e) name) tbl with
-  | Some e => flag_of (snd e) flags
-  | None => false
-  end.
+  accessor_m (accessor_mask tbl name) flags.
 
 (* answers of all accessors, in the order of [names], as a bit mask (bit i = answer of names[i]) *)
-Fixpoint accmask (tbl : list (string * N)) (names : list string) (flags : N) : N :=
-  match names with
+Fixpoint accmask_m (masks : list (option N)) (flags : N) : N :=
+  match masks with
   | [] => 0
-  | n :: r => (if accessor tbl n flags then 1 else 0) + 2 * accmask tbl r flags
+  | m :: r => (if accessor_m m flags then 1 else 0) + 2 * accmask_m r flags
   end.
+Definition accmask (tbl : list (string * N)) (names : list string) (flags : N) : N :=
+  accmask_m (map (accessor_mask tbl) names) flags.
 
 (* switch r { case C1: t.Flags |= D1 ... }  — first matching label, no default *)
 Definition set_reporting_trigger (flags r : N) : N :=
